@@ -120,14 +120,19 @@ def _analyse(repo, fi: FunctionInfo):
                 e2[fi.named_params[3]] = ast.Constant(minmax)
                 # bindings made by the enclosing loop bodies before the innermost loop
                 skips = []
+                al = dict(q.alias)
                 for blk, loop in ((l1.body, l2), (l2.body, l3)):
                     pe = PathEval(fi.node, e2, post=complement_norm)
+                    pe.init_alias = al
                     r = pe.run([s for s in blk if s.lineno < loop.lineno])
                     skips += [x for x in r if x.ret is not None and x.ret != RAISE]
                     r = [x for x in r if x.ret is None] or r
                     if r:
                         e2 = dict(r[0].env)
-                inner = PathEval(fi.node, e2, post=complement_norm).run(l3.body)
+                        al = dict(r[0].alias)
+                pe_in = PathEval(fi.node, e2, post=complement_norm)
+                pe_in.init_alias = al
+                inner = pe_in.run(l3.body)
                 skips += [x for x in inner if x.ret is not None and x.ret != RAISE]
                 out.append((minmax, p, q, e2, inner, skips))
     return nest, out
@@ -319,7 +324,14 @@ def check_c(ck, repo):
     ck.verdict(both_none_ok and any(p.ret == RAISE and truth_of(p.conds, f"{T} is None") is True and truth_of(p.conds, f"{V} is None") is True for p in ps), "C18.c", cm, "tr is None and inv_tr is None -> raise", "the call is refused when both are missing, before anything is computed", "the both-None case is not refused before the metric is computed")
     r2 = repo.func(SM, "r2_score_comparable")
     c = [x for x in own_nodes_incl_lambda(r2.node) if isinstance(x, ast.Call) and src_of(x.func) == "comparable_metric"]
-    ok = len(c) == 1 and [src_of(a) for a in c[0].args] == ["r2_score", "y_true", "y_pred"] and {k.arg: src_of(k.value) for k in c[0].keywords} == {"sample_weight": "sample_weight", "multioutput": "multioutput", "tr": "tr", "inv_tr": "inv_tr"}
+    ok = False
+    if len(c) == 1:
+        b_ = {k: src_of(v) for k, v in bind(c[0], cm.named_params).items()}
+        p0 = cm.named_params
+        # (metric, y_true, y_pred, tr, inv_tr): each reaches the parameter of the same role, by position or keyword
+        ok = b_.get(p0[0]) == "r2_score" and b_.get(p0[1]) == r2.named_params[0] and b_.get(p0[2]) == r2.named_params[1] and b_.get(ptr) == "tr" and b_.get(pinv) == "inv_tr" and {"tr", "inv_tr"} <= set(r2.named_params)
+        extra = {k.arg: src_of(k.value) for k in c[0].keywords if k.arg not in p0}
+        ok = ok and extra == {"sample_weight": "sample_weight", "multioutput": "multioutput"}
     ck.verdict(ok, "C18.c", r2, c[0] if c else "comparable_metric(r2_score, y_true, y_pred, ...)", "r2_score_comparable = comparable_metric(r2_score, y_true, y_pred, tr=tr, inv_tr=inv_tr, ...)", "r2_score_comparable does not forward (y_true, y_pred, tr, inv_tr) in order")
     d = {a.arg: src_of(v) for a, v in zip(r2.node.args.kwonlyargs, r2.node.args.kw_defaults)}
     ck.verdict(d.get("tr") == "None" and d.get("inv_tr") == "None", "C18.c", r2, f"defaults tr={d.get('tr')}, inv_tr={d.get('inv_tr')}", "no transformation by default, so the both-None call is refused", "defaults of tr/inv_tr changed")
